@@ -120,7 +120,9 @@ func run(c *fw.Case) {
 			atomic.AddInt64(&bufV4, int64(v4))
 			atomic.AddInt64(&bufV6, int64(v6))
 			s.Feed(pk...)
-			s.WaitIdleOr(300 * time.Millisecond) // gives up only if the consumer stopped (overflow)
+			// gives up only if the consumer stopped because the local buffer overflowed (the generous
+			// limit is a safety net: a starved consumer on a loaded machine has not stopped)
+			s.WaitIdleUntil(20*time.Second, func() bool { return rig.Log.Contains("local packet buffer overflow") })
 		}
 		s.UnblockHook = func(n int) {
 			p := cur.Load()
@@ -152,9 +154,14 @@ func run(c *fw.Case) {
 	ts := day + 300*int64(1+r.Intn(200))
 	ctx := context.Background()
 	ms := []int{0, 1, 2, 17, 300}
+	unsettled := false
 	settle := func() {
 		for _, i := range ifaces {
-			rig.Source(i).WaitIdleOr(2 * time.Second)
+			// outside a pause the consumer always comes back for more: not becoming idle within the
+			// (generous) limit means the machine is starved or the capture is stuck -> inconclusive
+			if !rig.Source(i).WaitIdleOr(60 * time.Second) {
+				unsettled = true
+			}
 		}
 	}
 
@@ -231,7 +238,7 @@ func run(c *fw.Case) {
 					}
 					rig.Source(iface).Feed(pk...)
 					if rig.Source(iface).Pending() > 64 {
-						rig.Source(iface).WaitIdleOr(50 * time.Millisecond)
+						rig.Source(iface).WaitIdleOr(50 * time.Millisecond) // pacing only
 					}
 					// pace the feeder so that many pauses overlap the traffic (no verdict depends on this)
 					time.Sleep(time.Duration(fr.Intn(120)) * time.Microsecond)
@@ -281,6 +288,10 @@ func run(c *fw.Case) {
 	}
 	c.Count("buffered_v4", int(atomic.LoadInt64(&bufV4)))
 	c.Count("buffered_v6", int(atomic.LoadInt64(&bufV6)))
+	if unsettled {
+		c.Inconclusive("a source did not become idle within 60 s outside a pause (starved machine or stuck capture); log tail: %s", tail(rig.Log.String(), 400))
+		return
+	}
 	// final flush so that everything is comparable in one place
 	mem := rig.FlowMaps()
 	overflow := rig.Log.Contains("local packet buffer overflow")
@@ -333,4 +344,11 @@ func run(c *fw.Case) {
 		}
 	}
 	c.Sample(map[string]any{"ifaces": ifaces, "free_running": free, "buffer_limit": opts.BufferSize, "delivered": pos, "buffered_v4": bufV4, "buffered_v6": bufV6})
+}
+
+func tail(s string, n int) string {
+	if len(s) > n {
+		return s[len(s)-n:]
+	}
+	return s
 }
